@@ -164,6 +164,7 @@ public:
         capacity_ = round_up_to_power_of_two(max_size + 1);
         mask_ = capacity_ - 1;
         data_ = alloc_.allocate(capacity_);
+        begin_ = end_ = 0;
     }
 
     //! deallocate buffer
